@@ -4,6 +4,8 @@
 # identifiers that are not in Unicode normal form C (letter + combining mark, ANGSTROM SIGN, OHM SIGN) and tokens that span
 # lines without being whitespace, comments or strings (a C# attribute list is one Name.Attribute token to Pygments)
 EVERY_LANGUAGE = [
+    'x = "' + "a" * 66000 + '"; tail = 2; more = 3;\ny = 3;\n',  # one line of 66 000 characters: columns beyond 65 535
+    "a = 0\n" + ("abcdefghij" * 30 + " ") * 233 + "; c = 1\nlast = 1\n",  # 70 000 characters in 233 long names
     "cafe\u0301 = 1\nx = cafe\u0301 + 2\n",
     "int \u212bngstrom = 1; // \u2126\nint \u2126hm = \u212bngstrom;\n",
     "e\u0301\u0302(a\u030a) { n\u0303 }\n",
